@@ -2,8 +2,7 @@
 //! binary and the cargo-fuzz targets under /verif/fuzz).
 
 pub mod alloc_count;
-pub mod cfgs;
-pub mod fronts;
+pub use mlc::{cfgs, fronts};
 pub mod gen;
 pub mod nat;
 pub mod oracle;
